@@ -275,6 +275,25 @@ func (f *fIndex) encode(statsFirst bool) []byte {
 	return w.Bytes()
 }
 
+// statsText renders the statistics stored in the file in the format of statsText(c04Impl).
+func (f *fIndex) statsText() string {
+	var sb strings.Builder
+	fmt.Fprintf(&sb, "n=%d", len(f.refs))
+	for _, r := range f.refs {
+		if r.stats == nil {
+			sb.WriteString(";-")
+			continue
+		}
+		fmt.Fprintf(&sb, ";%d-%d,%d,%d", int64(r.stats[0]), int64(r.stats[1]), r.stats[2], r.stats[3])
+	}
+	if f.unmapped != nil {
+		fmt.Fprintf(&sb, ";u=%d", *f.unmapped)
+	} else {
+		sb.WriteString(";u=-")
+	}
+	return sb.String()
+}
+
 // variants returns structure-preserving re-encodings: what another writer of the same format may
 // legitimately produce for the same index.
 func (f *fIndex) variants(rnd *Rand) map[string][]byte {
@@ -321,6 +340,18 @@ func (f *fIndex) variants(rnd *Rand) map[string][]byte {
 		g := clone()
 		g.unmapped = nil
 		out["notrailer"] = g.encode(false)
+	}
+	{ // references whose ONLY bin is the statistics pseudo-bin (no ordinary bin, no tile): cannot be built
+		// through Add, but is a legitimate file of another writer
+		g := clone()
+		for i := range g.refs {
+			g.refs[i].bins = nil
+			g.refs[i].intervals = nil
+			if g.refs[i].stats == nil {
+				g.refs[i].stats = &[4]uint64{100, 200, 3, 1}
+			}
+		}
+		out["statsonly"] = g.encode(false)
 	}
 	{ // random shuffle of bins
 		g := clone()
@@ -456,7 +487,7 @@ func (cs *c04Case) c15Run(c *ctx, d *Driver, impl *[]string) {
 		return
 	}
 	vs := f.variants(c.rnd)
-	for _, name := range []string{"reversed-statsfirst", "nostats-notrailer", "notrailer", "shuffled"} {
+	for _, name := range []string{"reversed-statsfirst", "nostats-notrailer", "notrailer", "shuffled", "statsonly"} {
 		cs.c15Foreign(c, d, impl, name, vs[name])
 	}
 }
@@ -476,6 +507,9 @@ func (cs *c04Case) c15Foreign(c *ctx, d *Driver, impl *[]string, variant string,
 	var err error
 	o := guard(func() { imv, err = base.reread(v) })
 	pool := "-"
+	if cs.Kind == "bai" {
+		pool = cs.cfgText() // the query-time MergeStrategy, or "-"
+	}
 	if cs.Kind == "tbx" {
 		// "n" followed by "/<hex>" per name, so that the list [""] ("n/-") differs from the empty list ("n")
 		ns := []string{"n"}
@@ -507,6 +541,12 @@ func (cs *c04Case) c15Foreign(c *ctx, d *Driver, impl *[]string, variant string,
 		return
 	}
 	stv, _ := safeStats(imv)
+	if f2, ok := fDecode(cs.Kind, v); ok {
+		// the statistics the harness's own reading of the format finds in the bytes
+		if want := f2.statsText(); want != stv {
+			r.fail(cs.Kind+".foreign.stats-lost."+variant, fmt.Sprintf("accessors report %q, the file says %q", stv, want), in)
+		}
+	}
 	av := cs.foreignAnswers(imv)
 	*impl = append(*impl, bytesDigest(wv)+" "+stv+" "+av)
 	var imv2 c04Impl
@@ -610,6 +650,24 @@ func checkC15(c *ctx) {
 		cs.c15Run(c, d, &impl)
 		count(cs)
 		r.hist("corpus.csi-all-bins")
+	}
+	// corpus: the C04 corpus (incl. the "second use" histories of fixes/C15-3) and a depth-10 CSI index whose only
+	// record falls into leaf bin 613566757, the number the 32-bit bin-limit expression gave the pseudo-bin (fixes/C15-2)
+	for _, cs := range c04Corpus() {
+		cs.c15Run(c, d, &impl)
+		count(cs)
+		r.hist("corpus.c04")
+	}
+	for _, ver := range []int{1, 2} {
+		cs := &c04Case{Kind: "csi", MinShift: 2, Depth: 10, Version: ver, Sorted: true, Strategy: "adjacent"}
+		cs.Recs = []c04Rec{
+			{Rid: 0, Start: 5, End: 9, Placed: true, Mapped: true, CB: 10, CE: 100},
+			{Rid: 0, Start: 1840700272, End: 1840700273, Placed: true, Mapped: true, CB: 100, CE: 200},
+		}
+		cs.Queries = []c04Query{{0, 1840700272, 1840700273}, {0, 0, 10}}
+		cs.c15Run(c, d, &impl)
+		count(cs)
+		r.hist("corpus.csi-depth10")
 	}
 	// corpus: tabix name lists with an EMPTY reference name (encoded as a lone terminator in the name block):
 	// alone, first, in the middle, last
